@@ -371,6 +371,17 @@ def rule_G(ctx) -> None:
             rsrc = ast.unparse(rpc)
             req_ok = ("await stream.recv_message()" in rsrc) != cs and ("stream.__aiter__()" in rsrc) == cs
             rep_ok = ("_call_rpc_handler_server_stream" in rsrc) == ss and ("stream.send_message(response)" in rsrc) != ss
+            # the received message reaches the handler whatever its value: a message whose fields all hold defaults is falsy
+            # (Message.__bool__), so only an identity test against None may stand between recv_message() and the handler
+            truthy = [n for n in ast.walk(rpc) if isinstance(n, (ast.If, ast.IfExp, ast.Assert, ast.While)) and any(
+                (isinstance(t, ast.Name) and t.id == "request") or (isinstance(t, ast.UnaryOp) and isinstance(t.op, ast.Not) and isinstance(t.operand, ast.Name) and t.operand.id == "request")
+                for t in ([n.test] + (list(n.test.values) if isinstance(n.test, ast.BoolOp) else [])))]
+            if truthy:
+                ctx.refuted("G4", f"adapter-forwards-every-request[{tag}]", ast.unparse(truthy[0].test), T_BODY,
+                            f"the generated adapter tests the truth value of the received request (`{ast.unparse(truthy[0].test)}`): betterproto messages are falsy when every field holds its "
+                            "default, so a legitimate request such as Empty() or Range(start=0) never reaches the handler", "call a unary RPC with a request whose fields are all default")
+            elif not cs:
+                ctx.proved("G4", f"adapter-forwards-every-request[{tag}]", T_BODY)
             if req_ok and rep_ok:
                 ctx.proved("G4", f"adapter[{tag}]", T_BODY)
             else:
